@@ -186,4 +186,18 @@ def suite_callw(ctx):
     return callw.suite_callw(ctx, 'C09')
 
 
-SUITES = [suite_hist, suite_raw, suite_callw]
+def suite_two_clients(ctx):
+    """a second client object in the same process (inside a suppress block, a payload override, with adopted timing, reconfigured, after a failed call) never shows
+    in this client's frames or outcome: the C15 two_clients suite, run here as well (state kept on the class instead of the instance breaks this property too)"""
+    from . import c15
+    return c15.suite_two_clients(ctx)
+
+
+def suite_reentrant(ctx):
+    """the pending-response callback uses the client it belongs to (the documentation suggests sending TesterPresent from it): the request in flight goes on as if the
+    callback had done nothing - harness/reentrant.py, metamorphic against a callback that only counts"""
+    from .. import reentrant
+    return reentrant.suite_reentrant(ctx)
+
+
+SUITES = [suite_hist, suite_raw, suite_callw, suite_two_clients, suite_reentrant]
